@@ -21,6 +21,7 @@ FAMILIES = {
     "joingraph": dict(seed=115, n=2000, gen="JoinGraphs", opts={}),
     "values": dict(seed=116, n=1500, gen="ValuesGen", opts={"tables": 1, "boolops": False, "like": False, "subq": False}),
     "gsets": dict(seed=117, n=2000, gen="GroupingSetsGen", opts={"null_p": 0.3, "boolops": False, "like": False, "subq": False, "dom": 2}),
+    "window": dict(seed=118, n=3000, gen="WindowGen", opts={"null_p": 0.25, "boolops": False, "like": False, "subq": False, "dom": 3}),
     "cte": dict(seed=108, n=2000, opts={**OFF, "cte": True, "derived": True, "cte_p": 1.0, "boolops": False, "group": True}),
 }
 
